@@ -296,6 +296,13 @@ def harnesses(tier):
                               c06_conn.h_nesting(_cg, wi, depth, 1 if q else 2),
                               {'construct': c06_conn.NEST[wi][1].decode(), 'depth': depth, 'symbolic_tail': 1 if q else 2},
                               replay='nesting', task_budget=120))
+    hs.append(Harness('conn:digit_runs[5000]', c06_conn.h_digit_runs(_cg, 5000),
+                      {'lines': len(c06_conn.DIGIT_LINES), 'digits': 5000, 'symbolic': 'one digit of the run'},
+                      replay='digitruns', task_budget=60, fuel=2000000))
+    for n in ([1, 2] if q else [1, 2, 3]):
+        hs.append(Harness('conn:search_strings[len=%d]' % n, c06_conn.h_search_strings(_cg, n),
+                          {'keys': [k.decode() for k in c06_conn.SEARCH_STRING_KEYS], 'charset': 'UTF-8', 'string_bytes': n,
+                           'executed': 'against a mailbox holding one message'}, replay='searchstrings', task_budget=60))
     for kind in range(len(c06_conn.DEEP)):
         for depth in ([700 if kind == 2 else 4000] if q else ([300, 700] if kind == 2 else [300, 1500, 4000, 12000])):
             hs.append(Harness('conn:deep_message[%s x%d]' % (c06_conn.DEEP[kind], depth), c06_conn.h_deep(_cg, kind, depth, 0 if kind == 2 else 1),
@@ -389,7 +396,7 @@ def _with_alarm(fn, seconds=1.0):
 
 
 def replay(harness, w):
-    if harness in ('badlimit', 'authplain', 'nesting', 'msgheaders', 'deepmsg'):
+    if harness in ('badlimit', 'authplain', 'nesting', 'msgheaders', 'deepmsg', 'digitruns', 'searchstrings'):
         from checks import c06_conn
         return c06_conn.replay(harness, w)
     from pymap.parsing import Params
@@ -444,4 +451,10 @@ def classify(harness, w, res):
         cte = c06_conn.HDR_NAMES.index(b'Content-Transfer-Encoding')
         if any(h == cte for h, _ in w.get('picks', [])):
             return 'C06-unknown-cte-binary'
+    if harness == 'msgheaders' and ('Incorrect padding' in str(res.get('detail')) or 'Invalid base64' in str(res.get('detail'))):
+        from checks import c06_conn
+        cte = c06_conn.HDR_NAMES.index(b'Content-Transfer-Encoding')
+        b64 = c06_conn.HDR_VALUES.index(b'base64')
+        if any(h == cte and v == b64 for h, v in w.get('picks', [])):
+            return 'C06-binary-decode-error'
     return None
